@@ -196,23 +196,49 @@ pub fn judge_error(ctx: &mut Ctx, s: &str, e: &SemverError, which: &str) {
     match demand_for_version(s) {
         Demand::MaxLength => {
             if !matches!(kind, SemverErrorKind::MaxLengthError) {
-                ctx.violation(&format!("kind/too-long-not-MaxLengthError/{}", kind_name(&kind)), w, format!("{} bytes long but kind is {:?}", s.len(), kind));
+                ctx.violation(&format!("kind/too-long-not-MaxLengthError/{}", kind_name(&kind)), w.clone(), format!("{} bytes long but kind is {:?}", s.len(), kind));
             }
         }
         Demand::MaxInt { value, at } => match kind {
             SemverErrorKind::MaxIntError(v) if v == value => {
                 if off != at {
-                    ctx.violation("kind/MaxIntError-position", w, format!("component starts at byte {} but offset is {}", at, off));
+                    ctx.violation("kind/MaxIntError-position", w.clone(), format!("component starts at byte {} but offset is {}", at, off));
                 }
             }
-            _ => ctx.violation(&format!("kind/big-component-not-MaxIntError/{}", kind_name(&kind)), w, format!("component {} at byte {} is above MAX_SAFE_INTEGER but kind is {:?}", value, at, kind)),
+            _ => ctx.violation(&format!("kind/big-component-not-MaxIntError/{}", kind_name(&kind)), w.clone(), format!("component {} at byte {} is above MAX_SAFE_INTEGER but kind is {:?}", value, at, kind)),
         },
         Demand::ParseInt { at } => {
             if !matches!(kind, SemverErrorKind::ParseIntError(_)) {
-                ctx.violation(&format!("kind/u64-overflow-not-ParseIntError/{}", kind_name(&kind)), w, format!("component at byte {} overflows u64 but kind is {:?}", at, kind));
+                ctx.violation(&format!("kind/u64-overflow-not-ParseIntError/{}", kind_name(&kind)), w.clone(), format!("component at byte {} overflows u64 but kind is {:?}", at, kind));
             }
         }
         Demand::None => {}
+    }
+    // the converse: a kind that names a numeric or length cause needs that cause in the input
+    let runs: Vec<&str> = s.split(|c: char| !c.is_ascii_digit()).filter(|r| !r.is_empty()).collect();
+    let sig = |r: &str| -> String { r.trim_start_matches('0').to_string() };
+    match &kind {
+        SemverErrorKind::ParseIntError(_) => {
+            let overflow = runs.iter().any(|r| {
+                let d = sig(r);
+                d.len() > 20 || (d.len() == 20 && d.as_str() > "18446744073709551615")
+            });
+            if !overflow {
+                ctx.violation("kind/ParseIntError-without-overflow", w, format!("kind is {:?} but no digit run of {:?} overflows u64", kind, s));
+            }
+        }
+        SemverErrorKind::MaxIntError(v) => {
+            let named = *v > crate::mv::MAX_SAFE && runs.iter().any(|r| sig(r) == v.to_string());
+            if !named {
+                ctx.violation("kind/MaxIntError-without-that-component", w, format!("kind is {:?} but {:?} holds no component with that value above MAX_SAFE_INTEGER", kind, s));
+            }
+        }
+        SemverErrorKind::MaxLengthError => {
+            if s.len() <= MAX_LENGTH {
+                ctx.violation("kind/MaxLengthError-on-short-input", w, format!("kind is MaxLengthError but the input is {} bytes long", s.len()));
+            }
+        }
+        _ => {}
     }
 }
 
@@ -268,6 +294,16 @@ pub fn run(ctx: &mut Ctx) {
     ctx.stratum("W-unicode-blanks", true);
     {
         const BLANKS: &[char] = &['\u{0b}', '\u{0c}', '\r', '\u{85}', '\u{a0}', '\u{1680}', '\u{2000}', '\u{2003}', '\u{200a}', '\u{2028}', '\u{2029}', '\u{202f}', '\u{205f}', '\u{3000}', '\u{200b}', '\u{feff}'];
+        // characters that are numeric / alphabetic for Unicode but not for the grammar
+        const LOOKALIKES: &[char] = &['\u{0663}', '\u{00b2}', '\u{ff17}', '\u{0967}', '\u{2167}', '\u{00bd}', '\u{ff41}', '\u{0430}', '\u{212a}'];
+        const LTEMPLATES: &[&str] = &["1.2.{w}", "1.{w}.3", "{w}.0.0", "1.2.3{w}", "1.2.{w}3", "v 1.2.{w}", "1.2.900719925474100{w}", "1.2.3-{w}", "1.2.3-rc.{w}", "1.2.3+{w}", "1{w}.2.3", "1.2.3-1{w}", ">=1.{w}", "^{w}.1"];
+        for b in LOOKALIKES {
+            for t in LTEMPLATES {
+                if ctx.take() {
+                    judge(ctx, &t.replace("{w}", &b.to_string()));
+                }
+            }
+        }
         const TEMPLATES: &[&str] = &["{w}foo", " {w}1.2.3.4", "{w}{w} >=1.y", "{w} {w}\t{w}bar || baz", "1.2.3{w}", "1.2{w}.3", "1.2.3 {w}", ">=1.2.3 {w}|| foo", "foo{w}", "{w}", "\n{w}x", "{w}\n{w}1.2", " {w}", "x{w}{w}{w}y", "{w}1.2.900719925474100", "1.2.3-{w}a", "{w}v1.2", "^{w}1.y", ">={w}", "1 - {w}"];
         for (bi, b) in BLANKS.iter().enumerate() {
             for (ti, t) in TEMPLATES.iter().enumerate() {
